@@ -151,6 +151,9 @@ def check_load(res: Result, props: Set[str], si: int, op: Dict[str, Any], r: Dic
                ws: Workspace, faults_active: bool, low_memory: bool) -> None:
     mode = op.get("mode", "ta")
     inc = bool(op.get("include_last", False))
+    # TraceAnalysis always loads through the pool and with memory profiling; the flags only reach
+    # Trace.load_traces / parse_traces
+    uses_pool = True if mode == "ta" else bool(op.get("mp", True))
     fired = [e for e in r["events"] if e.get("ev") == "fault_fired"]
     if op.get("via", "dir") == "dir":
         sub = op.get("subdir")
@@ -163,7 +166,7 @@ def check_load(res: Result, props: Set[str], si: int, op: Dict[str, Any], r: Dic
     if not r["ok"]:
         if r.get("killed"):
             return
-        if fired or torn_present or (low_memory and op.get("mp", True)):
+        if fired or torn_present or (low_memory and uses_pool):
             res.probe("load_raised_under_fault")
             return
         if mode == "parse" and op.get("max_ranks") == 0:
@@ -198,7 +201,7 @@ def check_load(res: Result, props: Set[str], si: int, op: Dict[str, Any], r: Dic
         res.probe("fractional_world")
     if len(loaded_ranks) > 8:
         res.probe("more_than_8_ranks")
-    res.states.add(("load", mode, op.get("via"), min(len(loaded_ranks), 9), bool(op.get("mp", True)), inc,
+    res.states.add(("load", mode, op.get("via"), min(len(loaded_ranks), 9), uses_pool, inc,
                     min(len({n for rf in rfs.values() for n in rf.step_names()}), 3)))
     shift = None
     for rank in loaded_ranks:
@@ -229,7 +232,7 @@ def check_load(res: Result, props: Set[str], si: int, op: Dict[str, Any], r: Dic
                     res.violate("C01", f"field-{key}/{ref_mode}",
                                 {"rank": rank, "id": eid, "got": row.get(key), "want": rf_row[key]}, si, r["i"])
                     if key in ("name", "cat"):
-                        how = "pool" if op.get("mp", True) and len(loaded_ranks) > 1 and mode != "single" else (
+                        how = "pool" if uses_pool and len(loaded_ranks) > 1 and mode != "single" else (
                             "single" if mode == "single" else "sequential")
                         res.violate("C11", f"decode-{key}/{how}",
                                     {"rank": rank, "id": eid, "got": row.get(key), "want": rf_row[key]}, si, r["i"])
